@@ -27,28 +27,34 @@ from vmon.refmodels import pitch as P
 
 PROP = "C08"
 RULE = ("seeded single-part scores with one divisions value and a complete final measure (gen_score: pickups, barline meter "
-        "changes in quarter and non-quarter meters, ties over barlines, grace notes, chords, tuplets, 1-3 voices and staves, "
-        "key changes incl. mid-bar, articulations) x performed parts aligned by shuffled alignments mixing match / deletion / "
-        "insertion / ornament entries (classes: complete, some notes unmentioned, 0-1 matches; performed ids n<k>, <k>, p<k>) x "
-        "ppq/mpq pairs x pedal streams of length 0..40 (controllers 64, 67 and others; times free, on ticks, next to half ticks) x "
-        "assume_unfolded on/off; written files corrupted with duplicate ids (textual copies, match+deletion, match+insertion, "
-        "double deletions/insertions/matches, empty lines); the three fixture files loaded, saved and loaded again. A case is one "
-        "save_match round trip or one load of a corrupted/fixture file; non-trivial = all four alignment labels present and "
-        "(a tie, a non-quarter meter, a meter change or a pickup) -- or, for loads, at least one documented duplicate "
-        "resolution; distinct by (score digest, performance+alignment digest) / file digest")
+        "changes between quarter and non-quarter meters, ties over barlines, grace notes, chords, tuplets, 1-3 voices (numbers up to "
+        "12) and staves, key changes incl. mid-bar, articulations, double accidentals; note ids P1n<k>, <k>, n<k>-<r>) x performed "
+        "parts aligned by shuffled alignments mixing match / deletion / insertion / ornament entries (classes: complete, some notes "
+        "unmentioned, 0-1 matches; performed ids n<k>, <k>, p<k>) x ppq/mpq pairs x pedal streams of length 0..40 (controllers 64, 67 "
+        "and others; times free, on ticks, next to half ticks) x argument forms (Part/Score/list, PerformedPart/Performance/list) x "
+        "assume_unfolded on/off. Three routes: save_match -> load_match; a file written by the reference writer (left- or "
+        "right-aligned pickup) -> load_match (reader alone); written files corrupted with duplicate ids (textual copies, "
+        "match+deletion, match+insertion, double deletions/insertions/matches, empty lines) -> load_match; plus the three fixture "
+        "files loaded, saved and loaded again, and corrupted. A case is one round trip or one load; non-trivial = all four alignment "
+        "labels present and (a tie, a non-quarter meter, a meter change or a pickup) -- for loads of corrupted files: at least one "
+        "duplicate actually resolved; distinct by (route, score digest, performance+alignment digest) / file digest")
 ASSUMPTIONS = ["reference model vmon/refmodels/c08_match.py: exact beats (beat 0 at the first barline after a pickup), nearest tick "
-               "with exact-half (+-1e-6 tick) as don't-care, supported articulations = staccato and accent",
-               "beat positions of the loaded score are judged with tolerance 5e-5 beat (the four decimals the format keeps)",
-               "notes no alignment entry mentions, measures that start after the last note ended, a pickup bar that opens with a "
-               "rest, and exactly repeated pedal events are don't-care (the format has no line for them)",
+               "with exact-half (+-1e-6 tick) as don't-care, supported articulations = staccato and accent; in the file, beats are "
+               "units of the time signature's denominator (as in the historical fixture files and as the reader takes them)",
+               "score positions are compared exactly in quarters counted from the first saved note that came back; equal notes, "
+               "barlines and signatures then imply equal beats, which is checked last with tolerance 5e-5 beat (four decimals)",
+               "don't-care: notes no alignment entry mentions and bars/signatures only they delimit; measures that start after the last "
+               "note ended; the part of a bar before the first note; the end of a pickup bar when the next bar has no note onset; "
+               "exactly repeated pedal events (identical lines are read once); two signatures of one bar; ids occurring twice",
                "performed ids compared after the documented n-prefixing; with assume_unfolded=False score ids carry the documented "
-               "-1 suffix; alignment entries compared as a multiset (order is not part of the statement)",
-               "redundant restatements of the signature in force are not counted as signatures"]
-MIN_HOOKS = {"save_match": {"quick": 800, "thorough": 20000}, "load_matchfile": {"quick": 1800, "thorough": 50000},
-             "load_match": {"quick": 1800, "thorough": 50000}}
-MIN_NONTRIVIAL = {"quick": 500, "thorough": 12000}
+               "-1 suffix; alignment entries compared as a multiset (order is not part of the statement); bar numbers may start anywhere",
+               "redundant restatements of the signature in force are not counted as signatures",
+               f"a load that does not return within LOAD_BUDGET_S seconds is reported as non-terminating (normal loads take < 0.5 s)"]
+MIN_HOOKS = {"save_match": {"quick": 800, "thorough": 35000}, "load_matchfile": {"quick": 1800, "thorough": 80000},
+             "load_match": {"quick": 1800, "thorough": 80000}}
+MIN_NONTRIVIAL = {"quick": 500, "thorough": 20000}
 ITEM_TIMEOUT_S = 240
-LOAD_BUDGET_S = 20
+LOAD_BUDGET_S = 6          # a load takes well under a second; floats in the timeline make tie_notes loop forever
 
 BEAT_TOL = Fraction(5, 10**5)
 _hooks = []
@@ -652,11 +658,11 @@ def check_score(ctx, S, wrong, lp, text=None):
         V(k, f"{name}s (quarters after the first note, value): saved {[(str(x), y) for x, y in exp_n]}, loaded "
           f"{[(str(x), y) for x, y in got_n]}", S.witness(saved=[[str(x), y] for x, y in exp_n], loaded=[[str(x), y] for x, y in got_n]))
     # ---- beats: equal notes, barlines and signatures must give equal beats
-    if structure_ok and not uncovered and not (A["pickup"] and 0 not in onset_bars):
+    if structure_ok and not uncovered and not (A["pickup"] and 0 not in onset_bars) and not (wrong & {"duration", "offset", "onset"}):
         for sid, (e, g) in present.items():
             ctx.check(2)
             if abs(g["onset_beat"] - e["onset_beat"]) > BEAT_TOL or abs(g["offset_beat"] - e["offset_beat"]) > BEAT_TOL:
-                V(f"score-beats-differ-with-equal-structure:{timing_ctx}", f"score note {sid}: onset/offset {e['onset_beat']}/"
+                V("score-beats-differ-with-equal-structure", f"score note {sid}: onset/offset {e['onset_beat']}/"
                   f"{e['offset_beat']} beats saved, {g['onset_beat']}/{g['offset_beat']} loaded although notes, barlines and "
                   f"signatures agree", S.witness(note=e, loaded_divs=B["q"]))
                 break
@@ -902,12 +908,12 @@ def setup(ctx):
 # --------------------------------------------------------------------------- driver
 def plan(tier, seed):
     quick = tier == "quick"
-    items = [["gen", i] for i in range(960 if quick else 24000)]
-    items += [["gen-large", i] for i in range(32 if quick else 1600)]
-    items += [["unfold", i] for i in range(64 if quick else 1600)]
-    items += [["corrupt", i] for i in range(128 if quick else 4000)]
-    items += [["ref", i] for i in range(480 if quick else 16000)]
-    items += [["ref-corrupt", i] for i in range(96 if quick else 3200)]
+    items = [["gen", i] for i in range(960 if quick else 40000)]
+    items += [["gen-large", i] for i in range(32 if quick else 2400)]
+    items += [["unfold", i] for i in range(64 if quick else 2400)]
+    items += [["corrupt", i] for i in range(128 if quick else 6000)]
+    items += [["ref", i] for i in range(480 if quick else 24000)]
+    items += [["ref-corrupt", i] for i in range(96 if quick else 4800)]
     items += [["fixture", f] for f in FIXTURES]
     items += [["fixture-corrupt", f, i] for f in FIXTURES[:2] for i in range(2 if quick else 12)]
     return items
